@@ -12,7 +12,7 @@
    Every theorem below is quantified over ALL oracles (the Section variables), i.e. it holds for every
    behaviour of the optimiser, including raising RuntimeError for any subset of the peaks. *)
 From Coq Require Import QArith Qabs ZArith String List Bool.
-From Verif.C17 Require Import Model Proofs ProofsWindows ProofsRemove ProofsTotal ProofsRefuted.
+From Verif.C17 Require Import Model ModelOrder Proofs ProofsOrder ProofsWindows ProofsRemove ProofsTotal ProofsRefuted.
 Import ListNotations.
 Open Scope Q_scope.
 
@@ -53,6 +53,27 @@ Theorem C17_peak_independence : forall d d' cs cs' ws bspec pspec fp fr rs rs' i
   slice_labels d (fst w) (snd w) = slice_labels d' (fst w) (snd w) ->
   nth_error rs i = nth_error rs' i.
 Proof. exact (peak_independence V lt next_up guess curve_fit feval ln chi2cdf). Qed.
+
+(* ---- model selection: for LISTS of models the combinations are tried in the documented order
+   (peak outer, background inner: "the background is varied first") and the first success wins; stated against the
+   fits of every combination ON ITS OWN (single-model specifications, same window) *)
+Theorem C17_documented_order : forall (pks bks : list mkind) i j p b,
+  nth_error pks i = Some p -> nth_error bks j = Some b ->
+  nth_error (candidates pks bks) (candidate_index (length bks) i j) = Some (p, b).
+Proof. exact candidates_order. Qed.
+
+Theorem C17_first_success_in_documented_order : forall d w bks pks fp fr solos,
+  pks <> [] -> bks <> [] ->
+  Forall2 (fun pb r => fit_peak' d w [snd pb] [fst pb] fp fr = Ok r) (candidates pks bks) solos ->
+  exists r, first_success solos = Some r /\ fit_peak' d w bks pks fp fr = Ok r.
+Proof. exact (fit_peak_is_first_success_of_solo_fits V lt guess curve_fit feval ln chi2cdf). Qed.
+
+Theorem C17_earliest_success_wins : forall d w bks pks fp fr solos pre r post,
+  pks <> [] -> bks <> [] ->
+  Forall2 (fun pb r => fit_peak' d w [snd pb] [fst pb] fp fr = Ok r) (candidates pks bks) solos ->
+  solos = (pre ++ r :: post)%list -> Forall (fun x => res_success x = false) pre -> res_success r = true ->
+  fit_peak' d w bks pks fp fr = Ok r.
+Proof. exact (fit_peak_earliest_success V lt guess curve_fit feval ln chi2cdf). Qed.
 
 (* ---- a window with too few points is a RESULT (guard first) ... *)
 Theorem C17_narrow_window_is_result : guard_first V = true ->
@@ -215,6 +236,9 @@ Proof. exact remove_peaks_refuses_variances. Qed.
 
 Print Assumptions C17_one_result_per_estimate.
 Print Assumptions C17_peak_independence.
+Print Assumptions C17_documented_order.
+Print Assumptions C17_first_success_in_documented_order.
+Print Assumptions C17_earliest_success_wins.
 Print Assumptions C17_narrow_window_is_result.
 Print Assumptions C17_narrow_window_fit_peak.
 Print Assumptions C17_narrow_window_raises_refuted.
